@@ -329,7 +329,8 @@ class Ctx:
         for sig, what, fn in self.violations:
             print("VIOLATION property=%s replay=%s" % (self.pid, fn))
             print("  " + what)
-        shutil.rmtree(self.build, ignore_errors=True)
+        if not os.environ.get("VERIF_KEEP"):
+            shutil.rmtree(self.build, ignore_errors=True)
         return 1 if self.violations else 0
 
 
